@@ -72,11 +72,14 @@ func genRSCase(rt *rapid.T, cfg rsGenCfg) (*val.Case, *gen.RuleSet) {
 	order := rapid.Permutation(indexes(len(rs.Rules))).Draw(rt, "rule_order")
 	var b strings.Builder
 	var parts []string
+	// literal selectors may be spelled in any notation unless a Forget/Changed call names a variable with a selector
+	selLits := !forgetNamesSelector(rs.Rules)
 	for _, i := range order {
 		p := gast.NewPrinter()
 		if cfg.Vary {
 			p.C = rchooser{rt}
 			p.Vary = true
+			p.VarySelLits = selLits
 		}
 		p.Rule(rs.Rules[i])
 		t := p.String() + "\n"
@@ -141,6 +144,28 @@ func maybeUsedBefore(rt *rapid.T, c *val.Case, rs *gen.RuleSet, cfg gen.StateCfg
 		rs.Feat["earlier_call_on_the_same_data_context"]++
 	}
 	return true
+}
+
+func forgetNamesSelector(rules []*gast.Rule) bool {
+	found := false
+	for _, r := range rules {
+		for _, st := range r.Then {
+			cs, ok := st.(*gast.CallStmt)
+			if !ok {
+				continue
+			}
+			x := cs.X
+			if f, ok := x.(*gast.Frozen); ok {
+				x = f.X
+			}
+			if call, ok := x.(*gast.Call); ok && call.Recv == nil && (call.Name == "Forget" || call.Name == "Changed") && len(call.Args) == 1 {
+				if l, ok := call.Args[0].(*gast.Lit); ok && strings.Contains(l.S, "[") {
+					found = true
+				}
+			}
+		}
+	}
+	return found
 }
 
 func indexes(n int) []int {
